@@ -172,8 +172,64 @@ def scenarios(tier, seed):
 NT = 16
 
 
+NCH = 24
+HIST_SRC = '''
+def run(v, O):
+    s1 = O.text([getattr(v, p[1:]) if p.startswith('@') else p for p in v.first])
+    s2 = O.text([getattr(v, p[1:]) if p.startswith('@') else p for p in v.second])
+    with ExpressionSolver(AtomBase) as es:
+        lib_outcome(s1, O, es)                 # whatever it does - value, None or an error part-way through
+        used = lib_outcome(s2, O, es)
+    ref = lib_outcome(s2, O)
+    if used == ('raised', 'domain') or ref == ('raised', 'domain') or used[0] == 'nonfinite' or ref[0] == 'nonfinite':
+        return [('no claim: non-finite intermediate value', True)]
+    out = [('same kind of outcome as a fresh instance', O.same(used[0], ref[0]))]
+    if used[0] == ref[0] == 'raised':
+        out.append(('same error as a fresh instance', O.same(used[1], ref[1])))
+    if used[0] == ref[0] == 'ok':
+        isb = lambda x: type(x).__name__ in ('bool', 'bool_', 'SymBool')
+        out.append(('same value as a fresh instance', O.veq(used[1], ref[1]) if (isb(used[1]) or isb(ref[1])) else O.eq(used[1], ref[1], 1e-12)))
+    return out
+'''
+
+
+def hist_scenarios(tier, seed):
+    """character level: an arbitrary (mostly ill-formed) first string, then a second string, on one instance vs. a fresh instance"""
+    from harness import c01, charkit
+    rnd = random.Random(seed + 5)
+    pre = c01.PRE + charkit.CHAR_SRC
+    S = []
+    special = '()*/+-<>=!&|,. '
+    cells = [(repr(ch), [f'v.c0 == {ord(ch)}']) for ch in special] + [('digit', ['v.c0 >= 48', 'v.c0 <= 57']),
+             ('other', ['z3.And(' + ', '.join(f'v.c0.t != {ord(ch)}' for ch in special) + ', z3.Not(z3.And(v.c0.t >= 48, v.c0.t <= 57)))'])]
+    probes = ['1+2', '(3)', '2*(1+2)', 'sin(1)', '-2**2', '1<2&&!0', 'pow(2,3)', '((4))', '1 2', '(1', '2*', 'pow(1)']
+    # (A) every first string of <= 2 (thorough 3) free characters, then every second string of <= 2 free characters
+    for n1 in (1, 2) if tier == 'quick' else (1, 2, 3):
+        for cname, cpre in (cells if n1 >= 2 else [('any', [])]):
+            for n2 in (1, 2):
+                if n2 == 2 and (n1 == 3 or tier == 'quick'):
+                    continue
+                inp = {f'c{i}': 'char' for i in range(n1)}
+                inp.update({f'd{i}': 'char' for i in range(n2)})
+                S.append(Scenario(f'chars/hist/{n1}-{n2}/{cname}', HIST_SRC, inp, cpre, consts={'first': [f'@c{i}' for i in range(n1)], 'second': [f'@d{i}' for i in range(n2)]}, preamble=pre,
+                                  what=f'any {n1} characters, then any {n2} characters, on one instance (first character: {cname})', samples=20))
+    # (B) every first string of <= 3 free characters, then a fixed probe
+    for pi, probe in enumerate(probes if tier != 'quick' else [probes[2], probes[3], probes[9]]):
+        for cname, cpre in cells:
+            S.append(Scenario(f'chars/hist-probe/{pi}/{cname}', HIST_SRC, {f'c{i}': 'char' for i in range(3)}, cpre, consts={'first': ['@c0', '@c1', '@c2'], 'second': [probe]}, preamble=pre,
+                              what=f'any 3 characters, then {probe!r} (first character: {cname})', samples=10))
+    # (C) a well-formed text with one free character (failing part-way, inside parentheses, in function arguments ...), then a free second string or a probe
+    bases = c01.base_strings(rnd, 6 if tier == 'quick' else 30)
+    for bi, text in enumerate(bases):
+        for p in range(len(text)):
+            S.append(Scenario(f'chars/hist-edit/{bi}@{p}', HIST_SRC, {'c0': 'char', 'd0': 'char'}, consts={'first': [text[:p], '@c0', text[p + 1:]], 'second': [rnd.choice(['', '2', '(', '1+']), '@d0', rnd.choice(['', '1', '(2)', '+1', ')'])]},
+                              preamble=pre, what=f'{text!r} with any character at position {p}, then a string with one free character', samples=5))
+    return S
+
+
 def tasks(tier, seed):
-    return [{'id': f'c02-{i:02d}', 'tier': tier, 'seed': seed, 'slice': [i, NT]} for i in range(NT)]
+    return ([{'id': f'c02-{i:02d}', 'tier': tier, 'seed': seed, 'slice': [i, NT]} for i in range(NT)]
+            + [{'id': f'c02-ch-{i:02d}', 'tier': tier, 'seed': seed, 'chars': [i, NCH]} for i in range(NCH)])
 
 
 def patches():
@@ -181,6 +237,12 @@ def patches():
 
 
 def run_task(task):
+    if 'chars' in task:
+        from harness import c01
+        S = hist_scenarios(task['tier'], task['seed'])
+        S.sort(key=lambda sc: (not sc.key.startswith('chars/hist/'), sc.key))
+        i, k = task['chars']
+        return run_scenarios(S[i::k], c01.char_patches, timeout_ms=20000, seed=task['seed'], wall_s=3000, max_paths=400000)
     S = scenarios(task['tier'], task['seed'])
     i, k = task['slice']
     res = run_scenarios(S[i::k], patches, timeout_ms=20000, seed=task['seed'], wall_s=600)
